@@ -15,7 +15,7 @@ RULE = ("explicit-state BFS to fixpoint: transitions are real DrawSet.add/remove
         "elements) over universes of 3 and 4 (quick) / 3, 4 and 5 (thorough) edge tuples; in every state len, iteration, "
         "membership and every RNG resolution of draw() are compared with a plain set; a state is "
         "non-trivial when it is a distinct ordered arrangement with >= 2 members")
-BOUNDS = {"quick": "universes of 3, 3 and 4 elements (two of them containing a pair and its reversal), full reachable state space (fixpoint)",
+BOUNDS = {"quick": "universes of 3, 3, 3, 4 and 5 elements (pairs and their reversals, colliding hashes, string ids), full reachable state space (fixpoint)",
           "thorough": "universes of 3, 3, 4, 5 and 6 elements, full reachable state space (fixpoint)"}
 ASSUMPTIONS = ["elements are hashable tuples, as in rewire(); draw() on an empty set and the exception type "
                "of remove(absent) are unspecified by the property and not checked",
@@ -26,8 +26,11 @@ def instances(tier, seed):
     yield {"universe": [(0, 1), (0, 2), (1, 2)]}
     # a pair and its reversal are different elements
     yield {"universe": [(0, 1), (1, 0), (0, 2)]}
+    # equal hashes (hash(-1) == hash(-2) in CPython, so the two tuples collide in the index map), string vertex ids
+    yield {"universe": [(-1, 0), (-2, 0), ("a", "b")]}
     if tier == "quick":
         yield {"universe": [(0, 1), (0, 2), (1, 2), (2, 1)]}
+        yield {"universe": [(1, 2), (0, 5), (3, 4), (2, 1), (5, 0)]}
     else:
         yield {"universe": [(0, 1), (0, 2), (1, 2), (2, 1)]}
         yield {"universe": [(1, 2), (0, 5), (3, 4), (2, 1), (5, 0)]}
@@ -64,8 +67,8 @@ def check_state(s, model, universe, res, hist):
     if len(s) != len(model):
         return f"len {len(s)} != {len(model)}"
     items = list(iter(s))
-    if sorted(items) != sorted(model) or len(items) != len(set(items)):
-        return f"iteration {items} != members {sorted(model)}"
+    if sorted(items, key=repr) != sorted(model, key=repr) or len(items) != len(set(items)):
+        return f"iteration {items} != members {sorted(model, key=repr)}"
     for x in universe:
         if (x in s) != (x in model):
             return f"membership of {x}: {x in s} vs model {x in model}"
@@ -83,7 +86,7 @@ def check_state(s, model, universe, res, hist):
         if st.leaves == 0 or st.points == 0:
             res.infra.append("draw() made no controlled random call")
         if set(seen) != set(model):
-            return f"draw() can return {sorted(seen, key=repr)} but members are {sorted(model)}"
+            return f"draw() can return {sorted(seen, key=repr)} but members are {sorted(model, key=repr)}"
         if any(p != Fraction(1, len(model)) for p in seen.values()):
             return f"draw() not uniform: {seen}"
     return None
@@ -102,7 +105,7 @@ def run_instance(inst, tier):
         msg = check_state(s, model, universe, res, hist)
         if msg:
             res.violation("C20:state-disagrees-with-set", f"after history {hist}: {msg}", inst,
-                          history=hist, model=sorted(model))
+                          history=hist, model=sorted(model, key=repr))
             continue
         if len(model) >= 2:
             res.nontrivial.add(tuple(iter(s)))
@@ -192,7 +195,7 @@ def replay(v):
     print("history:", hist)
     s, model = build(hist)
     print("DrawSet iteration:", list(iter(s)), "len", len(s), "internals", vars(s))
-    print("model set        :", sorted(model))
+    print("model set        :", sorted(model, key=repr))
     uni = [tuple(x) for x in v["instance"]["universe"]]
     msg = check_state(s, model, uni, Result(), hist)
     print("disagreement:", msg)
